@@ -281,7 +281,10 @@ Section Follow.
   | EPause                 (* SIGSTOP ... SIGCONT: nothing happens in between *)
   | EAppend (r : record)   (* the leader acknowledges one more write *)
   | EShrink (l' : file)    (* leader AOFSHRINK: the log is replaced, replication connections are closed *)
-  | EOwn (r : record).     (* the follower's own sweeper deletes an expired object / hook and logs it *)
+  | EOwn (r : record)      (* the follower's own sweeper deletes an expired object / hook and logs it *)
+  | EFollow (l' : file).   (* FOLLOW host port with a (host, port) different from the current one: cmdFollow bumps
+                              followc, so the running session gives up (errNoLongerFollowing) and a new follow()
+                              goroutine starts against the other leader, whose log is l' *)
 
   Definition step (md : mode) (w : file * fol) (e : event) : file * fol :=
     let '(l, f) := w in
@@ -295,6 +298,7 @@ Section Follow.
     | EAppend r => (l ++ [r], leader_append r f)
     | EShrink l' => (l', drop_conn f)
     | EOwn r => (l, own_append r f)
+    | EFollow l' => (l', drop_conn f)
     end.
 
   Definition run (md : mode) (w : file * fol) (es : list event) : file * fol := fold_left (step md) es w.
